@@ -202,6 +202,7 @@ class SCRun:
         self.viol = []
         self.notes = Counter()
         self.active = {}                # sid -> CancelScope / ('H', handle)  (polled)
+        self.started_objs = {}
         self.foreign = set()            # ids of CancelledError objects raised by the program itself (not AnyIO's)
         self.foreign_keep = []
         self.scopes = {}                # sid -> CancelScope (ever created, for cancel/shield statements)
@@ -716,6 +717,9 @@ class SCRun:
         if ts is None:
             return
         self.rec("started", tid, val=val)
+        if val % 3 == 0:
+            # the started() value is data whatever its type: sometimes an exception *instance*
+            val = self.started_objs.setdefault(val, Boom(("started value, not an error", val)))
         try:
             ts.started(val)
         except RuntimeError:
@@ -787,7 +791,7 @@ class SCRun:
         acc = self.started_rec.get(ctid)
         if not acc:
             self.v("C07.value", f"start() of child {ctid} returned {val!r} although the child never called started()")
-        elif acc[0] != val:
+        elif acc[0] is not val and acc[0] != val:
             self.v("C07.value", f"start() of child {ctid} returned {val!r}; the child passed {acc[0]!r} to started()")
         else:
             self.probes["start_returned_value"] += 1
@@ -826,7 +830,8 @@ class SCRun:
         self.task_of[ctid] = asyncio.current_task()
         chain = ["H%d" % ctid] + list(self.group_chain[gid])
         self.rec("cstart", ctid)
-        val = ("ret", ctid)
+        # a task's return value is data whatever its type: every third child returns an exception *instance*
+        val = Boom(("returned, not raised", ctid)) if ctid % 3 == 0 else None if ctid % 3 == 1 else ("ret", ctid)
         try:
             await self.body(ctid, cbody, chain)
         except CancelledError as e:
